@@ -728,6 +728,93 @@ def _check_fill_semantic(prop: str, res: Result, repo: Repo, fm) -> bool:
     return True
 
 
+def _check_fill_builder(prop: str, res: Result, repo: Repo, fm) -> bool:
+    """the forward-pass form of the fill step (out = [first]; for cur in rest: append flat candles until cur follows; out.append(cur)),
+    decided from one symbolic iteration of its inner loop on a generic chain tail (fillsem.analyse_builder)"""
+    from .fillsem import TF, Unknown, analyse_builder
+    from .absint import ListV
+
+    rule = "R-FILL"
+    try:
+        an = analyse_builder(repo, fm)
+    except Unknown as e:
+        res.note(f"fill step is not the forward-pass form either ({e})")
+        return False
+    before = len(res.findings)
+    try:
+        ts_tail, ts_cur = A("attr", "TAIL", "timestamp"), A("attr", "cur", "timestamp")
+        raw_tail = A("raw", "TAIL", "close")
+        gap_ne, gap_gt = mk_cmp("!=", ts_cur, ts_tail + TF), mk_cmp("<", ts_tail + TF, ts_cur)
+        eq = mk_cmp("==", ts_cur, ts_tail + TF)
+        present = ("present-ts", "TAIL")
+        targets = set()
+        n_app = 0
+        order = ["open", "high", "low", "close", "volume", "timestamp"]
+        for p_ in an["paths"]:
+            f = p_["facts"]
+            if p_["kind"] == "exit":
+                if not (eq in f or c_not(present) in f or c_not(("nonempty", "OUT")) in f or (c_not(gap_gt) in f)):
+                    res.fail(rule, finding(prop, rule, fm, an["inner"], "the loop that produces the fill candles can stop while the current candle is still more than one timeframe after the last candle of the output: the rest of the gap stays open; path: " + "; ".join(show_cond(c) for c in f if c is not True)[:160], construct="fill builder: early exit"))
+                continue
+            if len(p_["appended"]) != 1:
+                raise Unknown("an iteration of the inner loop that appends nothing (or several candles)")
+            e = p_["appended"][0]
+            n_app += 1
+            base, val, node = e[1], e[3][0] if e[3] else None, e[-1]
+            if e[2] != "append" or not (isinstance(val, Obj) and val.kind == "new" and val.data[0] == "Candle"):
+                raise Unknown("the inner loop adds something other than a fresh Candle(...)")
+            fields = dict(zip(order, val.data[1]))
+            fields.update(dict(val.data[2]))
+            want = {"open": raw_tail, "high": raw_tail, "low": raw_tail, "close": raw_tail, "volume": ZERO, "timestamp": ts_tail + TF}
+            for k, w_ in want.items():
+                got = fields.get(k)
+                if isinstance(got, Num) and (got.f == w_ or got.f.same(w_)):
+                    res.ok(rule, {"site": fm.where, "fill candle": f"{k} = {got.f!r}"}, nontrivial=f"fill:{k}")
+                elif k in ("open", "high", "low", "close") and isinstance(got, Num) and got.f == A("attr", "TAIL", "close"):
+                    res.fail(rule, finding(prop, rule, fm, node, f"the fill candle takes {k} from the previous candle's .close, which is the converted (e.g. Heikin-Ashi) close when the list is re-collapsed after an append and the raw close in a batch pass; use the raw close (clean_values.get('close', .close))", construct=f"fill candle {k}=previous.close"))
+                else:
+                    res.fail(rule, finding(prop, rule, fm, node, f"the fill candle must have {k} = {w_!r} (flat at the raw close of the candle before it, zero volume, one timeframe after it); found {got!r}", construct=f"fill candle {k}={got!r}"[:150]))
+            if gap_ne in f or gap_gt in f:
+                res.ok(rule, {"site": fm.where, "gap test": "current.timestamp != last.timestamp + timeframe" if gap_ne in f else "last.timestamp + timeframe < current.timestamp"}, nontrivial="fill:gap")
+            else:
+                res.fail(rule, finding(prop, rule, fm, node, "a fill candle is appended on a path that has not established `current.timestamp != last.timestamp + timeframe` on the full timestamps; path: " + "; ".join(show_cond(c) for c in f if c is not True)[:160], construct="fill: gap test"))
+            # the new candle becomes the chain's tail
+            if isinstance(base, Obj) and base.kind == "list" and base.data == "OUT":
+                targets.add("OUT")
+                for tv in an["tailvars"]:
+                    if p_["env"].get(tv) is not val and p_["env"].get(tv) != val:
+                        # a local still pointing at the old tail is fine only if it is re-read from out[-1] inside the loop
+                        reread = any(isinstance(n, ast.Assign) and any(isinstance(t, ast.Name) and t.id == tv for t in n.targets) for n in ast.walk(an["inner"]))
+                        if not reread:
+                            res.fail(rule, finding(prop, rule, fm, node, f"after a fill candle is appended, `{tv}` still refers to the candle before it: every further fill candle of the same gap gets the same timestamp", construct="fill builder: tail not advanced"))
+            elif isinstance(base, ListV) or (isinstance(base, Obj) and base.kind != "list"):
+                targets.add("gap")
+                if not an["tailvars"] or not all(p_["env"].get(tv) == val for tv in an["tailvars"]):
+                    res.fail(rule, finding(prop, rule, fm, node, "fill candles are collected in a separate list but the 'previous candle' is not advanced to the candle just built: every fill candle of a gap gets the same timestamp", construct="fill builder: tail not advanced"))
+            else:
+                raise Unknown("fill candles are appended to an unexpected list")
+        if n_app == 0:
+            raise Unknown("no path of the inner loop appends a fill candle")
+        after_txt = [ast.unparse(x).replace(" ", "") for x in an["after"] if not isinstance(x, ast.Pass)]
+        if "gap" in targets:
+            if len(after_txt) == 1 and after_txt[0].startswith(f"{an['out']}.extend(") :
+                res.ok(rule, {"site": fm.where, "builder": "the gap's fill candles are appended to the output before the current candle"})
+            else:
+                raise Unknown("the separate list of fill candles is not simply extended onto the output")
+        elif after_txt:
+            raise Unknown("statements between the inner loop and out.append(current)")
+        post_txt = [ast.unparse(x).replace(" ", "") for x in an["post"]]
+        if post_txt in ([f"{an['lst']}[:]={an['out']}", f"return{an['lst']}"], [f"return{an['out']}"]):
+            res.ok(rule, {"site": fm.where, "builder": "every candle of the input is appended after the fill candles of the gap before it; the result is returned" + (" (and written back in place)" if len(post_txt) == 2 else "")}, nontrivial="fill:cursor")
+        else:
+            raise Unknown("what happens to the built list after the loop: " + "; ".join(post_txt)[:80])
+    except Unknown as e:
+        del res.findings[before:]
+        res.note(f"forward-pass fill step not decided ({e})")
+        return False
+    return True
+
+
 def check_fill(prop: str, res: Result, repo: Repo):
     rule = "R-FILL"
     fm = repo.method("hexital.core.candle_manager", "CandleManager", "fill_missing_candles")
@@ -739,7 +826,7 @@ def check_fill(prop: str, res: Result, repo: Repo):
             if isinstance(r_, FuncInfo):
                 fm = r_
     fn = fm.node
-    if _check_fill_semantic(prop, res, repo, fm):
+    if _check_fill_semantic(prop, res, repo, fm) or _check_fill_builder(prop, res, repo, fm):
         # effects: only insert; no store on existing candles, no state on self
         for s_, t in attr_stores(fn):
             res.fail("R-EFFECT", finding(prop, "R-EFFECT", fm, s_, "fill_missing_candles writes an attribute: filling must only insert fresh candles and keep no state"))
